@@ -7,8 +7,8 @@ PROPS = {}
 
 
 # thorough tier: the seeded random part is this many times the base count (measured: all twenty thorough checks took
-# 25 minutes together at scale 1; the enumerated parts are unaffected)
-TH = int(os.environ.get("VERIF_THOROUGH_SCALE", "4"))
+# 25 minutes together at scale 1 and 36 minutes at scale 4; the enumerated parts are unaffected)
+TH = int(os.environ.get("VERIF_THOROUGH_SCALE", "8"))
 
 
 def rbytes(rng, n):
